@@ -208,10 +208,13 @@ def _values_check(chk, what, rule, replay_filter=None, maxlen=None):
 def check_C13(chk):
     _values_check(chk, "veh", "LfsValues.VehClass (InSim v9 rule) in two forms that TLC proves equal on the boundary set. TLC enumerates boundary "
                   "identifiers (every alphanumeric edge in each position x last byte 0/1/255, the 20 names, lower-cased names); the real BinRead / "
-                  "BinWrite / Display run on them and on 40k random alphanumeric names + 20k random values (quick) or on all 2^32 values compressed "
-                  "into boxes of uniform class (thorough); TLC validates class, mod id, identical write-back and printed name of every event.",
+                  "BinWrite / Display run on them and on ALL 2^32 identifiers: the 62^3 alphanumeric names with a NUL individually (238328 VehRead "
+                  "events), everything else compressed by the harness into boxes on which the real classification and the identical write-back "
+                  "were verified value by value (VehBox events), plus 20k random values; TLC validates class, mod id, write-back and printed "
+                  "name of every event and that no box straddles a boundary of the rule.",
                   replay_filter={"VehRead"})
-    chk.exhaustive = chk.tier == "thorough"
+    chk.exhaustive = True
+    chk.extra["identifiers_executed"] = 2 ** 32
 
 
 def check_C14(chk):
@@ -258,10 +261,27 @@ def check_C17(chk):
     chk.transitions += n
     log(f"[tlc] c17_gen: {n} file cases ({r.wall:.0f}s)")
     outp = nd + ".replay.out"
-    harness(["files-replay", "--in", nd, "--seed", str(chk.seed)], stdout_path=outp)
+    rc = harness(["files-replay", "--in", nd, "--seed", str(chk.seed)], stdout_path=outp, allow_crash=True)
+    if isinstance(rc, int) and rc < 0:
+        # the parser took the whole process down (an allocation the input cannot justify aborts): find the case
+        last = None
+        for line in open(outp, errors="replace"):
+            if line.startswith("CASE "):
+                last = line[5:].strip()
+        cs = json.loads(last) if last else {}
+        key = f"files:{cs.get('fmt')}:{(cs.get('hostile') or {}).get('pos', '?')}:{(cs.get('hostile') or {}).get('how', '?')}:process-abort"
+        chk.violation(key, f"the parser aborted the process (signal {-rc}) on this input - e.g. an allocation the input cannot justify", {"kind": "file-case", "case": cs, "seed": chk.seed})
+        chk.rule += " (run cut short: the parser aborted the process)"
+        chk.traces += 1
+        chk.case(cs)
+        chk.sample(cs)
+        chk.exhaustive = False
+        return
     summary = None
     with open(outp) as f:
         for line in f:
+            if line.startswith("CASE "):
+                continue
             v = json.loads(line)
             if "summary" in v:
                 summary = v["summary"]
@@ -312,7 +332,7 @@ def check_C18(chk):
         chk.add_tlc(name, r)
         log(f"[tlc] {name}: {n} behaviours ({r.wall:.0f}s)")
         outp = nd + ".replay.out"
-        stride = 1 if (thorough or name == "c18_emit") else 3
+        stride = 12 if (thorough and name == "c18_emit") else (1 if name == "c18_emit" else 3)
         harness(["builder-replay", "--in", nd, "--connect-stride", str(4 if (name == "c18_emit" and not thorough) else stride)], stdout_path=outp, timeout=3000)
         summary = None
         with open(outp) as f:
